@@ -392,6 +392,12 @@ def c09_constants(w, act, st, rec, fresh, recF):
     #  between the two step sequences; 2e-5 was seen on values of ~150 -> judged to 1e-3 there)
     intg_ = (spec.method or {}).get("intg")
     rt, at = (1e-3, 1e-5) if intg_ in ("cvodes", "idas") else (1e-5, 1e-7) if intg_ == "collocation" else (1e-8, 1e-10)
+    from .seams import insensitive_points
+
+    n_pts = len(pts)
+    pts = insensitive_points(rec, pts, w.probe_seed, rt, at)
+    if len(pts) < n_pts:
+        w.probe("c09_hidden_ill_conditioning_points_skipped", n_pts - len(pts))
     if len(pts) < len(rec["f"]):
         w.probe("c09_ill_conditioned_probe_points_skipped", len(rec["f"]) - len(pts))
     for what, a, b in (("f", [rec["f"][i] for i in pts], [recC["f"][i] for i in pts]), ("lbg", rec["lbg"], recC["lbg"]), ("ubg", rec["ubg"], recC["ubg"]), ("x0", rec["x0"], recC["x0"])):
